@@ -1,7 +1,6 @@
 package main
 
 import (
-	"path/filepath"
 	"bytes"
 	"fmt"
 	"go/ast"
@@ -9,6 +8,7 @@ import (
 	"go/token"
 	"go/types"
 	"os"
+	"path/filepath"
 	"regexp"
 	"sort"
 	"strings"
